@@ -111,6 +111,16 @@ def make_files(tier, seed, mdl):
     files.append(b"".join(rng.choice(valid) + b"\n" for _ in range(5000)))            # many lines in one file
     nshort = 20000 if tier == "quick" else 100000                                       # per-line cost must not grow with the line number
     files.append(b"".join((b"u%d@a.bc\n" % (i % 977)) if i % 5 else b"bad\n" for i in range(nshort)))
+    for size in (4096, 8192, 16384, 65536):                                              # file size an exact multiple of the page size,
+        tail_line = b"last.line@example.org"                                            # valid last line without terminator
+        body = b""
+        while len(body) + len(tail_line) + 60 < size:
+            body += b"u%d@mail.example.com\n" % (len(body) % 9973)
+        pad = size - len(body) - len(tail_line) - 1
+        body += b"p" * max(0, pad - 6) + b"@a.com"[:6 if pad >= 6 else 0] + b"\n" + tail_line
+        if len(body) == size:
+            files.append(body)
+            files.append(body[:-len(tail_line)] + b"\xd0\xb8\xd0\xb2@\xd1\x80\xd1\x84.com"[:len(tail_line)])
     files.append(b"\xef\xbb\xbfuser@example.com\nsecond@example.org\n")              # byte-order mark in front of the first line
     files.append(b"\r")
     files.append(b"a@b.com\r\r\n\rx@y.org\n")
